@@ -137,7 +137,7 @@ var heldPayload, heldPayloadCopy []byte
 var heldURI string
 
 func TestProp_DataURI(t *testing.T) {
-	ev.Describe("datauri", "data:[type/subtype][;key=value]*[;base64],payload for arbitrary payload bytes (0-40) encoded with base64 (std, padded), full RFC 3986 percent-encoding or EncodeURL(URLEncodingTable / DataURIEncodingTable without literal '+'); oracle: (media type incl. parameters, or text/plain when absent; exact payload; nil). Negative: missing data: scheme or comma => ErrBadDataURI, corrupt base64 => base64.CorruptInputError; non-trivial = payload has a byte that needs escaping, or base64")
+	ev.Describe("datauri", "data:[type/subtype][;key=value]*[;base64],payload for arbitrary payload bytes (0-40) encoded with base64 (std, padded), full RFC 3986 percent-encoding or EncodeURL(URLEncodingTable / DataURIEncodingTable, which leaves '+' unescaped); oracle: (media type incl. parameters, or text/plain when absent; exact payload; nil). Negative: missing data: scheme or comma => ErrBadDataURI, corrupt base64 => base64.CorruptInputError; non-trivial = payload has a byte that needs escaping, or base64")
 	ev.Check(t, 30000, func(t *rapid.T) {
 		payload := rapid.SliceOfN(rapid.Byte(), 0, 40).Draw(t, "payload")
 		mt := ""
@@ -186,7 +186,7 @@ func TestProp_DataURI(t *testing.T) {
 			needs = len(e) != len(payload)
 			uri += "," + string(e)
 		case "datatable":
-			payload = bytes.ReplaceAll(payload, []byte("+"), []byte("-")) // '+' is not escaped by this table and decodes as a space (form encoding): outside "percent-encoding arbitrary bytes"
+			// (the table leaves '+' as it is: a plus sign stands for itself in a data URI)
 			e := parse.EncodeURL(append([]byte(nil), payload...), parse.DataURIEncodingTable)
 			needs = len(e) != len(payload)
 			uri += "," + string(e)
